@@ -200,6 +200,7 @@ type RScenario struct {
 	Split bool     `json:"split"` // wire even positions through a second tag-scan processor (varies the property order)
 	Seed  int64    `json:"seed"`  // permutation of the singleton registry's name enumeration
 	Preset bool    `json:"preset"` // every point's field holds a sentinel (pid 99, not a registered component) before the start
+	Extra  bool    `json:"extra"`  // processors.NewDependencyTypeAwarePostProcessors() is registered next to the default collector
 }
 
 // the sentinel a preset field holds before the start: never registered, so it can only survive, never be injected
@@ -403,8 +404,12 @@ func runResolve(sc *RScenario) []map[string]any {
 				status = "panic"
 			}
 		}()
+		extra := []any{w, w2, o1, o2}
+		if sc.Extra {
+			extra = append(extra, processors.NewDependencyTypeAwarePostProcessors())
+		}
 		if err := app.NewApp().Run(app.LogLevel(syslog.LvPanic), app.SetRegistry(&permSingles{support.NewRegistry(), sc.Seed}),
-			app.SetFactory(f), app.SetComponents(append(ordered, w, w2, o1, o2)...)); err != nil {
+			app.SetFactory(f), app.SetComponents(append(ordered, extra...)...)); err != nil {
 			status = "err"
 		}
 	}()
